@@ -447,6 +447,9 @@ def refusal_cases() -> list[tuple[str, str]]:
         except (ValueError, TypeError):
             out.append((f"refuse:equal-shared-frame:{a}:{b}", ""))
     kinds = {"cartesian": CartesianPoint, "cylindrical": CylinderPoint, "spherical": SpherePoint}
+    # a user's subclass of a point class is still a point of that kind
+    for base_name, base_cls in list(kinds.items()):
+        kinds[base_name + "-subclass"] = type("Labelled" + base_cls.__name__, (base_cls, ), {})
     for sname, cs in sy.items():
         q = cs.coord_system.base_scalars()
         f = ScalarField.from_expression(q[0] + 2 * q[1] + 3 * q[2], cs)
@@ -458,7 +461,7 @@ def refusal_cases() -> list[tuple[str, str]]:
                     got = "accepted"
                 except ValueError:
                     got = "refused"
-                want = "accepted" if pname == sname else "refused"
+                want = "accepted" if pname.split("-")[0] == sname else "refused"
                 out.append((f"pointkind:{what}:{sname}:{pname}", "" if got == want else
                     f"{what} field in {sname} coordinates {got} a {pname} point"))
         # the generic Point is accepted everywhere and means 'coordinates of this system'
